@@ -373,3 +373,9 @@ pub fn with_watchdog<T: Send + 'static>(timeout: std::time::Duration, f: impl Fn
     });
     rx.recv_timeout(timeout).ok()
 }
+
+/// The error of a run whose chains found no valid start point (500 attempts of `init_position` each gave a non-finite
+/// logp or gradient, e.g. all of center + jitter lies behind a wall): legitimate, and not what any property here judges.
+pub fn is_init_failure(msg: &str) -> bool {
+    msg.contains("All initialization points failed")
+}
